@@ -162,8 +162,13 @@ class Config:
             self.kw = {'temperature': float(rng.integers(300, 900)), 'time_step': float(rng.choice([1.0, 2.0]))}
             if numeric:
                 self.kw['type_mapping'] = mapping
-            self.call = lambda cache=None, **extra: Trajectory.from_lammps(coords_file=self.src[0], data_file=self.src[1], cache=cache, **{**self.kw, **extra})
+            self.call = lambda cache=None, **extra: Trajectory.from_lammps(coords_file=self.src[0], cache=cache, **{'data_file': self.src[1], **self.kw, **extra})
             self.variants = [{'temperature': self.kw['temperature'] + 100}, {'time_step': self.kw['time_step'] * 2}, {'constant_lattice': False}]
+            # a data file with the same base name in another directory (other box): a different source
+            os.makedirs(os.path.join(d, 'relaxed'), exist_ok=True)
+            alt = os.path.join(d, 'relaxed', 'data.txt')
+            synth_io.write_lammps(alt, os.path.join(d, 'relaxed', 'unused.xyz'), lengths * 1.01, symbols, cart, numeric_names=numeric)
+            self.variants.append({'data_file': alt})
             if numeric:
                 other = dict(mapping)
                 keys = sorted(other)
@@ -175,8 +180,13 @@ class Config:
             self.src = [os.path.join(d, 'traj.xtc'), os.path.join(d, 'top.gro')]
             synth_io.write_gromacs(self.src[1], self.src[0], lengths, symbols, cart, dt_ps=float(rng.choice([1.0, 2.0])))
             self.kw = {'temperature': float(rng.integers(300, 900))}
-            self.call = lambda cache=None, **extra: Trajectory.from_gromacs(topology_file=self.src[1], coords_file=self.src[0], cache=cache, **{**self.kw, **extra})
+            self.call = lambda cache=None, **extra: Trajectory.from_gromacs(coords_file=self.src[0], cache=cache, **{'topology_file': self.src[1], **self.kw, **extra})
             self.variants = [{'temperature': self.kw['temperature'] + 50}]
+            # a topology with the same base name in another directory (other atom names)
+            os.makedirs(os.path.join(d, 'other'), exist_ok=True)
+            alt_sym = ['Na' if x == 'Li' else x for x in symbols]
+            synth_io.write_gromacs(os.path.join(d, 'other', 'top.gro'), os.path.join(d, 'other', 'unused.xtc'), lengths, alt_sym, cart)
+            self.variants.append({'topology_file': os.path.join(d, 'other', 'top.gro')})
 
     def cache_files(self):
         return sorted(f for f in os.listdir(self.d) if f.endswith('.cache'))
